@@ -91,3 +91,26 @@ def obj(name, P=None, cls=None):
 
 def new_eval(P, **kw):
     return Evaluator(P, **kw)
+
+
+def ext_name(e, mod, f=None, types=None):
+    """Dotted external name of an expression such as `datetime.datetime.fromtimestamp`
+    (resolving import aliases of module `mod`), or None."""
+    parts = []
+    n = e
+    while isinstance(n, ast.Attribute):
+        parts.append(n.attr)
+        n = n.value
+    if not isinstance(n, ast.Name):
+        return None
+    # a local variable shadows the import
+    if f is not None and types is not None and n.id in types.locals.get(f.qual, ()):
+        return None
+    imp = mod.imports.get(n.id)
+    if imp is None:
+        return None
+    if imp[0] == "module":
+        base = imp[1]
+    else:
+        base = imp[1] + "." + imp[2]
+    return ".".join([base] + list(reversed(parts)))
